@@ -27,17 +27,18 @@ given a literal `record_provenance=False`, and `provenances.add_row` occurs only
 `provenance.record_provenance`; (2) exactly one static call chain leads from the entry point to a
 `record_provenance(...)` call and it passes through no loop; (3) `record_provenance` performs a
 single `add_row(record=json.dumps(record))`, `get_provenance_dict` builds
-`dict(kwargs) + {"command": command}`; (4) `self.provenance_params` is assigned only in
+`dict(kwargs) + {"command": command}`, and `json.dumps` is given a `default=` hook turning numpy
+scalars/arrays into plain values (commit 96bcc3b); (4) `self.provenance_params` is assigned only in
 `__init__` (to `None`, and to the dict under `if record_provenance`), and `None` defaults to on. -/
 theorem prov_static_once :
     (∀ e ∈ entries, sitesOk (sites.filter (fun s => s.entry == e)) = true) ∧
     (∀ e ∈ entries, (e, 1, false) ∈ recordChains) ∧
     (∀ e ∈ entries, ((entrySites e).filter Site.isRecord).length = 1) ∧
-    singleAddRow = true ∧ provenanceDictShapeOk = true ∧
+    singleAddRow = true ∧ provenanceDictShapeOk = true ∧ jsonNumpyHook = true ∧
     (paramsAssigns.map (fun a => (a.1, a.2.1)) =
       [("core.EstimationMethod.__init__", []), ("core.EstimationMethod.__init__", ["record_provenance"])]) ∧
     recordDefaultTrue = true := by
-  refine ⟨?_, ?_, ?_, ?_, ?_, ?_, ?_⟩ <;> decide +kernel
+  refine ⟨?_, ?_, ?_, ?_, ?_, ?_, ?_, ?_⟩ <;> decide +kernel
 
 /-- **Earlier records are kept**: for any entry point, any set/order/multiplicity of executed
 sites and either value of the flag, the old table is a prefix of the new one (identical rows, same
@@ -70,7 +71,10 @@ theorem prov_off_unchanged {R : Type} (mk : Site → R) (e : String) (he : e ∈
 passed-argument assignment and every normalisation of `population_size`: `parameters["command"]` is
 the method name; every parameter of the method's `run()` is present with the value the method
 function hands to `run` (the caller's value, or the documented default when the caller passed
-`None`); the generic parameters recorded by `__init__` are present with the caller's value.
+`None`); the generic parameters recorded by `__init__` are present with the caller's value — and these
+include every result-affecting keyword of `date()` other than `priors`: `mutation_rate`,
+`recombination_rate`, `time_units`, `population_size`, and (since commit adc1393) `constr_iterations`,
+`min_branch_length`, `allow_unary`, `set_metadata`.
 The static side conditions (run() records its own `locals()` first thing; no key is called
 `command`; init keys and run parameters are disjoint; every run parameter is fed by the public
 parameter of the same name) are re-proved from the regenerated tables. -/
@@ -78,6 +82,8 @@ theorem prov_params_complete :
     (∀ mi ∈ methods, mi.runRecordsLocals = true ∧ "command" ∉ initRecorded ++ mi.runParams ∧
         (∀ k ∈ mi.runParams, k ∉ initRecorded ∧ (k, k) ∈ mi.runMap ∧ k ∈ mi.fnParams) ∧
         (∀ k ∈ initRecorded, k ∈ sigInit)) ∧
+    (∀ k ∈ ["mutation_rate", "recombination_rate", "time_units", "population_size", "constr_iterations",
+            "min_branch_length", "allow_unary", "set_metadata"], k ∈ initRecorded) ∧
     (∀ mi ∈ methods, ∀ (passed : String → PVal) (normPop : PVal → PVal),
         dget "command" (dateParameters initRecorded mi passed normPop) = some (PVal.str mi.name) ∧
         (∀ k ∈ mi.runParams, dget k (dateParameters initRecorded mi passed normPop)
@@ -87,7 +93,7 @@ theorem prov_params_complete :
   have hstat : ∀ mi ∈ methods, mi.runRecordsLocals = true ∧ "command" ∉ initRecorded ++ mi.runParams ∧
       (∀ k ∈ mi.runParams, k ∉ initRecorded ∧ (k, k) ∈ mi.runMap ∧ k ∈ mi.fnParams) ∧
       (∀ k ∈ initRecorded, k ∈ sigInit) := by decide +kernel
-  refine ⟨hstat, ?_⟩
+  refine ⟨hstat, by decide +kernel, ?_⟩
   intro mi hmi passed normPop
   obtain ⟨_, hcmd, hrun, _⟩ := hstat mi hmi
   have hcmd1 : "command" ∉ initRecorded := fun h => hcmd (List.mem_append_left _ h)
@@ -110,23 +116,64 @@ theorem prov_params_complete :
     rw [dget_dupdate_map (fun k => if k = "population_size" then normPop (passed k) else passed k) k initRecorded]
     simp [hk]
 
-/-- **Which public keyword parameters never reach the record** (exact lists, regenerated):
-of `EstimationMethod.__init__` (the parameters `date()` forwards) only `mutation_rate`,
-`recombination_rate`, `time_units`, `progress`, `population_size` are recorded — in particular the
-result-affecting `min_branch_length`, `constr_iterations`, `allow_unary`, `set_metadata` and `priors`
-are not (finding, see design_notes/C33.md); of the method functions' own parameters only `priors`
-and the deprecated aliases are not; `preprocess_ts` does not record `**kwargs` (handed to
-`simplify`). -/
+/-- **The `preprocess_ts` record names the function and every parameter it used**, for every
+passed-argument assignment, every computed interval list and every set of extra keywords:
+`command` is `preprocess_ts`; each recorded keyword holds the value of the local of the same name
+at that point (defaults resolved: `minimum_gap`, `erase_flanks`, `split_disjoint`; the
+`remove_telomeres` alias; the computed `delete_intervals`); and (since commit adc1393) every extra
+keyword handed on to `simplify` is recorded with the value passed, provided it does not collide
+with a named key. -/
+theorem prov_preprocess_params_complete (passed : String → PVal) (computed : PVal)
+    (extraKeys : List String) (extraVal : String → PVal)
+    (hx : ∀ k ∈ extraKeys, k ≠ "command" ∧ k ∉ preprocessRecorded.map Prod.fst) :
+    preprocessRecordsVarKw = true ∧ preprocessCommand = "preprocess_ts" ∧
+    dget "command" (preprocessParameters preprocessRecorded preprocessRecordsVarKw passed computed extraKeys extraVal)
+      = some (PVal.str "preprocess_ts") ∧
+    (∀ k ∈ preprocessRecorded.map Prod.fst, k ∉ extraKeys →
+      dget k (preprocessParameters preprocessRecorded preprocessRecordsVarKw passed computed extraKeys extraVal)
+        = some (preprocessLocal passed computed k)) ∧
+    (∀ k ∈ extraKeys,
+      dget k (preprocessParameters preprocessRecorded preprocessRecordsVarKw passed computed extraKeys extraVal)
+        = some (extraVal k)) := by
+  have hvar : preprocessRecordsVarKw = true := by decide +kernel
+  have hid : ∀ kv ∈ preprocessRecorded, kv.1 = kv.2 := by decide +kernel
+  have hcmd : "command" ∉ preprocessRecorded.map Prod.fst := by decide +kernel
+  have hnamed : preprocessRecorded.map (fun kv => (kv.1, preprocessLocal passed computed kv.2))
+      = (preprocessRecorded.map Prod.fst).map (fun k => (k, preprocessLocal passed computed k)) := by
+    rw [List.map_map]
+    apply List.map_congr_left
+    intro kv hkv
+    simp [hid kv hkv]
+  refine ⟨hvar, by decide +kernel, ?_, ?_, ?_⟩
+  · simp [preprocessParameters, dget_dset_same]
+  · intro k hk hnx
+    have hne : k ≠ "command" := fun h => hcmd (h ▸ hk)
+    simp only [preprocessParameters, hvar, if_true]
+    rw [dget_dset_other _ _ _ _ hne, dget_dupdate_map extraVal k extraKeys, if_neg hnx, hnamed,
+      dget_dupdate_map (fun k => preprocessLocal passed computed k) k]
+    simp [hk]
+  · intro k hk
+    have hne : k ≠ "command" := (hx k hk).1
+    simp only [preprocessParameters, hvar, if_true]
+    rw [dget_dset_other _ _ _ _ hne, dget_dupdate_map extraVal k extraKeys]
+    simp [hk]
+
+/-- **Which public keyword parameters never reach the record** (exact lists, regenerated).
+Of `EstimationMethod.__init__` (the parameters `date()` forwards): `priors` (finding: a
+user-supplied prior replaces `population_size` but leaves no trace), the return-shape switches
+`return_likelihood`/`return_fit`, `record_provenance` itself and the deprecated `return_posteriors`.
+Of the method functions' own parameters: `priors` and the deprecated aliases.  Of `preprocess_ts`:
+`record_provenance` and the `remove_telomeres` alias (recorded as `erase_flanks`); its `**kwargs`
+are recorded. -/
 theorem prov_unrecorded_public_params :
     sigInit.filter (fun p => !initRecorded.contains p)
-      = ["priors", "return_likelihood", "return_fit", "allow_unary", "record_provenance", "constr_iterations",
-         "min_branch_length", "set_metadata", "return_posteriors"] ∧
+      = ["priors", "return_likelihood", "return_fit", "record_provenance", "return_posteriors"] ∧
     methods.map (fun mi => (mi.name, mi.fnParams.filter (fun p =>
         !initRecorded.contains p && !(mi.runMap.map Prod.snd).contains p)))
       = [("inside_outside", ["priors", "Ne"]), ("maximization", ["priors", "Ne"]), ("variational_gamma", ["eps"])] ∧
     preprocessParams.filter (fun p => !(preprocessRecorded.map Prod.snd).contains p)
       = ["record_provenance", "remove_telomeres"] ∧
-    preprocessVarKw = true ∧ preprocessCommand = "preprocess_ts" ∧
+    preprocessVarKw = true ∧ preprocessRecordsVarKw = true ∧
     (∀ p ∈ sigDate, p = "method" ∨ p ∈ dateForwarded) ∧ dateForwardsKwargs = true := by
   refine ⟨?_, ?_, ?_, ?_, ?_, ?_, ?_⟩ <;> decide +kernel
 
